@@ -28,6 +28,7 @@ EXPLANATION = (
     "prefix rests on AEAD authenticity (a cryptographic fact) and is not decided; the static part is that every failed "
     "check stops delivery."
     ' Added: a Noise frame is consumed only after its handler returned; no exit of the READY handler avoids the decrypt; nothing on the report/close path writes the receive buffer; any other error is reported unchanged.'
+    ' Also: reporting an error cannot raise by itself (expression totality); a handler that can catch InvalidTag keeps its mapping to the invalid-key error.'
 )
 ASSUMPTIONS = ["AEAD decrypt raises InvalidTag for any altered, replayed or reordered frame given the nonce discipline", "asyncio calls connection_lost with the exception raised by data_received"]
 
